@@ -1,20 +1,45 @@
 #!/usr/bin/env python3
 """Runs the repository's pinned test command on a tree (default /repo) and reports stable-baseline tests
-that no longer pass. Usage: tools/baseline_check.py [tree]"""
-import json, os, subprocess, sys, tempfile
+that no longer pass. Usage: tools/baseline_check.py [tree]
+
+The suite binds fixed TCP ports and leaves non-daemon threads behind (the interpreter may not exit after the
+session has finished), so it runs in its own network namespace when `unshare -n` is available and under a
+hard timeout; the junit file is written at session end, before any such hang."""
+import json, os, signal, subprocess, sys, tempfile
 import xml.etree.ElementTree as ET
 tree = sys.argv[1] if len(sys.argv) > 1 else "/repo"
 base = json.load(open("/root/.vp/BASELINE.json"))
+os.makedirs("/verif/.work", exist_ok=True)
 xml = tempfile.mktemp(suffix=".xml", dir="/verif/.work")
 env = dict(os.environ); env.pop("BROMELIA_VERIF", None)
-subprocess.run(["/venv/bin/python", "-m", "pytest", "-q", "-p", "no:cacheprovider", "--timeout=900",
-                "--continue-on-collection-errors", "--junitxml=" + xml], cwd=tree, env=env,
-               stdout=subprocess.DEVNULL, stderr=subprocess.DEVNULL)
+cmd = ["/venv/bin/python", "-m", "pytest", "-q", "-p", "no:cacheprovider", "--timeout=900",
+       "--continue-on-collection-errors", "--junitxml=" + xml]
+if subprocess.run(["unshare", "-n", "true"], capture_output=True).returncode == 0:
+    cmd = ["unshare", "-n", "sh", "-c", "ip link set lo up; exec " + " ".join(cmd)]
+p = subprocess.Popen(cmd, cwd=tree, env=env, stdout=subprocess.DEVNULL, stderr=subprocess.DEVNULL, start_new_session=True)
+import time
+t0 = time.time()
+try:
+    # the junit file appears when the session has finished; the interpreter may then hang in thread shutdown
+    while p.poll() is None and time.time() - t0 < 600:
+        time.sleep(2)
+        if os.path.exists(xml) and os.path.getsize(xml) > 0:
+            time.sleep(3)
+            break
+finally:
+    try:
+        os.killpg(p.pid, signal.SIGKILL)
+    except ProcessLookupError:
+        pass
 passed = set()
-for tc in ET.parse(xml).getroot().iter("testcase"):
-    if not any(c.tag in ("failure", "error", "skipped") for c in tc):
-        passed.add("%s::%s" % (tc.get("classname"), tc.get("name")))
-os.remove(xml)
+try:
+    for tc in ET.parse(xml).getroot().iter("testcase"):
+        if not any(c.tag in ("failure", "error", "skipped") for c in tc):
+            passed.add("%s::%s" % (tc.get("classname"), tc.get("name")))
+    os.remove(xml)
+except (OSError, ET.ParseError) as e:
+    print("no junit result (%s)" % e)
+    sys.exit(2)
 missing = sorted(set(base["stable_pass"]) - passed)
 print("passed=%d stable=%d broken=%d" % (len(passed), len(base["stable_pass"]), len(missing)))
 for m in missing[:40]:
